@@ -52,6 +52,13 @@ CLAIMED.update({
          "DESIGN.md 3 C06"),
 })
 
+CLAIMED.update({
+ "C16": ("Coq proofs about the abstract-group ECDSA/Schnorr verifiers and the executable BIP-340/ECDSA reference + exact accept/reject agreement of the library with the extracted reference",
+         "ecdsa_verify_iff, ecdsa_sign_verify, neg_sig_still_valid (low-s export), ecdsa_recover_correct, schnorr_sign_verify/sound over an abstract group; bip340_sign_verifies, bip340_verify_accepts_only, decompress_strict, lift_x_complete for the executable reference (validated against BIP-340 vectors 0-14, RFC 4231, BIP-32 vector 1). The library's ecdsa.Signature.Verify, SigEthereum, taproot Sign/Public/Verify, FromHash and point/scalar decoding are compared with the reference on valid signatures and every single-field perturbation (boundary values of r, s, x; parity flips; all prefixes; all lengths; messages of 0..1000 bytes).",
+         "secp256k1 group laws / primality of p are premises of the completeness lemmas; the reference itself is validated by standard vectors and a differential test against decred, not proved against the standards' prose.",
+         "DESIGN.md 3 C16"),
+})
+
 # properties whose check is complete enough to be claimed in MANIFEST.json right now
-READY = {"C19", "C09", "C18", "C07", "C17", "C01", "C02", "C08", "C14", "C06", "C20"}
+READY = {"C19", "C09", "C18", "C07", "C17", "C01", "C02", "C08", "C14", "C06", "C20", "C16"}
 CLAIMED = {k: v for k, v in CLAIMED.items() if k in READY}
